@@ -17,7 +17,7 @@ import ast
 import itertools
 from typing import Optional
 
-from ..core import AnalysisError, ClassInfo, FuncInfo, norm, self_attr, short
+from ..core import AnalysisError, ClassInfo, FuncInfo, norm, self_attr, short, walk_local
 from ..engine import Engine
 from ..exact import AV, INT, ONE, OTHER, ROUNDED, TUP, UNKNOWN, add, as_int, div, form, form_add, form_const, form_str, form_subst_zero, mul
 from ..report import Check
@@ -484,6 +484,7 @@ def run(chk: Check, eng: Engine) -> None:
              "accepts equality", floor=4)
     chk.rule("R03-b", "Fitness.fitness() of the hard-constraint fitness classes is exactly 1.0 when solved == total / all values are 1.0", floor=2)
     chk.rule("R03-c", "code outside the evaluator compares the evaluator's fitness with the threshold unchanged", floor=1)
+    chk.rule("R03-d", "a tree is recorded as reported only together with its yield; nobody else edits that record", floor=2)
     chk.not_decided.append("that success of arbitrary user expressions coincides with fitness()==1.0 beyond the accumulator shapes of R02-c/R07-c")
 
     ev_cls = eng.cls(EVAL_MOD, "Evaluator")
@@ -551,6 +552,38 @@ def run(chk: Check, eng: Engine) -> None:
                             "acceptance of a fully satisfying tree depends on a condition that H does not decide",
                             keyparts="undecided-guard|" + "|".join(undecided))
 
+    # R03-d -----------------------------------------------------------------
+    # "the first time it is seen": a key enters the solution set only when the tree is handed out
+    n_add = 0
+    for c in ev_cls.family():
+        for name, m in sorted(c.methods.items()):
+            cfg = eng.cfg(m)
+            adds = [n for n in cfg.nodes if n.kind == "stmt" and n.ast is not None and any(
+                isinstance(x, ast.Call) and isinstance(x.func, ast.Attribute) and x.func.attr in ("add", "update") and self_attr(x.func.value) == "_solution_set" for x in ast.walk(n.ast))]
+            ys = [n.id for n in cfg.nodes if n.kind == "stmt" and isinstance(n.ast, ast.Expr) and isinstance(n.ast.value, (ast.Yield, ast.YieldFrom))]
+            for a in adds:
+                n_add += 1
+                p = cfg.find_path(a.id, [cfg.exit], avoid=ys, ignore=("exc-out", "raise-out", "abandon"))
+                if p is None and ys:
+                    chk.ok("R03-d", m.fq, a.line, f"`{a.text()}` is followed by a yield of the tree on every normal path")
+                else:
+                    chk.bad("R03-d", eng.relfile(m), a.line, m.fq, f"`{a.text()}` can record a tree as already reported without reporting it",
+                            "a satisfying tree is marked as seen and is never handed out: a solvable spec yields no (or fewer) solutions",
+                            path=cfg.describe_path(p) if p else [], keyparts=f"seen-without-yield|{name}")
+    # other writers of the solution set: only clear() (start of a new message) is allowed
+    for f in eng.ix.all_functions:
+        for x in walk_local(f.node):
+            if isinstance(x, ast.Call) and isinstance(x.func, ast.Attribute) and isinstance(x.func.value, ast.Attribute) and x.func.value.attr == "_solution_set" \
+                    and x.func.attr not in ("add", "update", "clear", "__contains__") and x.func.attr in ("discard", "remove", "pop", "difference_update", "intersection_update"):
+                chk.bad("R03-d", eng.relfile(f), x.lineno, f.fq, f"`{short(x)}` edits the set of reported solutions", "the 'first time it is seen' bookkeeping is altered", keyparts="solution-set-edit")
+            if isinstance(x, (ast.Assign, ast.AugAssign)):
+                for t in (x.targets if isinstance(x, ast.Assign) else [x.target]):
+                    if isinstance(t, ast.Attribute) and t.attr == "_solution_set" and not (f.name == "__init__"):
+                        chk.bad("R03-d", eng.relfile(f), x.lineno, f.fq, f"`{short(x)}` re-binds the set of reported solutions outside the constructor",
+                                "trees are forgotten or pre-marked as reported", keyparts="solution-set-rebound")
+    if n_add == 0:
+        raise AnalysisError("no `_solution_set.add(...)` found in the evaluator family")
+
     # R03-b -----------------------------------------------------------------
     fit_mod = "fandango.constraints.fitness"
     base = eng.cls(fit_mod, "ConstraintFitness")
@@ -605,6 +638,8 @@ from ..mutants import M  # noqa: E402
 _EV = "src/fandango/evolution/evaluation.py"
 _FT = "src/fandango/constraints/fitness.py"
 MUTANTS = [
+    M("seen-before-threshold", _EV, "        if fitness >= self._expected_fitness and key not in self._solution_set:\n            self._solution_set.add(key)\n            yield individual\n",
+      "        if key not in self._solution_set:\n            self._solution_set.add(key)\n            if fitness >= self._expected_fitness:\n                yield individual\n", "R03-d"),
     M("share-arithmetic-hard", _EV, "            fitness = fitness * len(self._hard_constraints)\n",
       "            fitness = fitness / total_constraint_count * len(self._hard_constraints) * total_constraint_count\n", "R03-a"),
     M("divide-before-weighting", _EV, "            fitness += rep_fitness * len(self._repetition_bounds_constraints)\n",
